@@ -413,7 +413,6 @@ func (R *Repository) updateCrlEntry(entry *Entry, newChains *core.CertificateCha
 	verifhook.Hit("repo.refresh.accepted")
 	err = R.updateEntry(entry, err, store)
 	if err != nil {
-		R.deleteEntrySync(identifier)
 		return err
 	}
 	R.logger.Info("finished updating crl " + entry.CRLLoader.GetDescription())
@@ -455,11 +454,8 @@ func (R *Repository) updateEntry(entry *Entry, err error, store crlstore.CRLStor
 	verifhook.Hit("repo.refresh.swap.before")
 	err = entry.CRLStore.Update(store)
 	verifhook.Hit("repo.refresh.swap.after")
-	if err != nil {
-		entry.CRLStore.Close()
-		//mark as empty in case someone already acquired the entry and waits for a lock
-		entry.CRLStore = nil
-	}
+	//in case of an error the old store stays in place: as long as it is still usable the previous crl stays in force,
+	//if the failed swap left it unusable lookups fail with an error instead of silently skipping the crl
 	return err
 }
 
